@@ -339,8 +339,8 @@ def _non_eval_store(eng, rep, rule, c, site):
     if fwd and all(p in fwd or (p == "eval_num" and ekey(a).endswith(".nx")) for p, a in args.items() if a is not None):
         rep.ok(rule, site, "forwards its own parameters (checked at the callers)", nontrivial=False)
         return
-    from .records import forwards_own_parameters, wrapper_must_consume
-    if not hasattr(c, "inner") and forwards_own_parameters(c) and wrapper_must_consume(eng, c.fi, c):
+    from .records import wrapper_inner_consumers
+    if not hasattr(c, "inner") and any(ic.call is c.call for ic in wrapper_inner_consumers(eng, c.fi)):
         rep.ok(rule, site, "a helper that stores (expressions over) its own parameters: every call of %s is checked as a store at the call site" % c.fi.qualname, nontrivial=False)
         return
     # kopt record: xopt(), ropt(), nsamples[kopt], eval_num[kopt]
@@ -534,7 +534,9 @@ def rule_objective_construction(eng, rep, A):
                 continue  # empty slot
             if isinstance(t, ast.Subscript) and isinstance(st.value, ast.Subscript) and ekey(st.value.value) == ekey(t.value):
                 continue  # permutation of existing entries (swap): values unchanged
-            n += 1
+            cs = eng.res.callers.get(m.fid, [])
+            # a store extracted into a private step of Model stands for one store per call site of that step
+            n += len(cs) if cs and all(c.caller.cls == "Model" for c in cs) else 1
             site = eng.where(m, st)
             _check_obj_value(eng, rep, rule, m, cfg, nnode, st.value, site, ttxt)
     # (b) the obj position of solve_main's returns that do not come from get_final_results
